@@ -24,8 +24,8 @@ import (
 )
 
 var (
-	poolsOnce sync.Once
-	samplesSvc, tagsSvc *wservice.InsertServiceV2Multimodal
+	poolsOnce             sync.Once
+	samplesSvc, tagsSvc   *wservice.InsertServiceV2Multimodal
 	samplesCols, tagsCols []wservice.IColPoolRes
 )
 
